@@ -55,7 +55,8 @@ const (
 	FeatPartition      = 256  // C05: partition that heals (everything sent meanwhile arrives when it ends)
 	FeatHelloMatrix    = 512  // C08: hello member combinations delivered in the hello listen states, drawn uniformly
 	FeatRaceWs         = 1024 // C20: the websocket workloads of C12 / C13 under the race detector
-	FeatAll            = 2047
+	FeatTransportStall = 2048 // C06 / C12 pair engines: the sending direction of one endpoint stalls for a while
+	FeatAll            = 4095
 )
 
 // SetFeatForRig forces the dual-stack options of the next hub rig (workloads
